@@ -111,12 +111,12 @@ _INV = re.compile(r'Invariant (\w+) is violated')
 _PROP = re.compile(r'(?:Action property|Temporal property|property) (\w+)? ?(?:is|was) violated', re.I)
 
 
-def run_instance(run: Run, name: str, inst: dict, *, emit=False, cfgfile='MC.cfg', timeout=3000, workers=16):
+def run_instance(run: Run, name: str, inst: dict, *, emit=False, cfgfile='MC.cfg', timeout=3000, workers=16, emitk='1'):
     d = tlc.fresh_dir('mc_' + name)
     path = os.path.join(d, 'inst.json')
     with open(path, 'w') as f:
         json.dump(inst, f)
-    env = {'MCCFG': path, 'EMIT': '1' if emit else '0'}
+    env = {'MCCFG': path, 'EMIT': '1' if emit else '0', 'EMITK': emitk}
     rc, out, wall = tlc.run_tlc('MC.tla', cfgfile, env, os.path.join(d, 'meta'), workers=workers, timeout=timeout, heap='12g', extra=['-continue'])
     with open(os.path.join(d, 'tlc.log'), 'w') as f:
         f.write(out)
@@ -238,7 +238,9 @@ def mc_part(run: Run, prop: str, replay_max=None):
         replay_max = 500 if run.tier == 'quick' else 6000
     for name in MC_FOR[prop]:
         inst = instance(name, run.tier, random.Random(run.seed * 17 + len(name)))
-        r = run_instance(run, name, inst, emit=True, timeout=3000 if run.tier == 'quick' else 14000)
+        big = name in ('minidraw', 'runout') or run.tier != 'quick'
+        emitk = '1' if not big else ('10' if run.tier == 'quick' else '100')
+        r = run_instance(run, name, inst, emit=True, timeout=3000 if run.tier == 'quick' else 14000, emitk=emitk)
         mine = [v for v in r['violated'] if any(v.startswith(p) or p in v for p in OWN[prop])]
         for v in mine:
             i = r['out'].find(v)
@@ -247,7 +249,8 @@ def mc_part(run: Run, prop: str, replay_max=None):
         others = [v for v in r['violated'] if v not in mine]
         behs = [b for b in behaviours(r['out'])]
         run.count('mc_states:' + name, r['states'])
-        run.count('mc_terminal_behaviours:' + name, len(behs))
+        run.count('mc_terminal_behaviours_emitted:' + name, len(behs))
+        run.count('mc_emitted_one_in:' + name, int(emitk))
         run.count('mc_behaviours_with_orphan_pot_fault:' + name, sum(1 for b in behs if b['fault']))
         ok = [b for b in behs if not b['fault']]
         sample = ok if len(ok) <= replay_max else rng.sample(ok, replay_max)
@@ -264,7 +267,7 @@ def mc_part(run: Run, prop: str, replay_max=None):
                                   {'kind': 'mc-replay', 'instance': name, 'behaviour': b, 'hand': T.short_hand(rec),
                                    'cfg': inst['cfgs'][b['cid'] - 1]['cfg'], 'deck': inst['cfgs'][b['cid'] - 1]['decks'][b['did'] - 1]})
         run.part(f'{prop}_mc_{name}', configs=r['configs'], states=r['states'], transitions=r['transitions'], tlc_wall=r['wall'],
-                 violated_here=mine, violated_other_properties=others, terminal_behaviours=len(behs), replayed=len(recs), not_followed=lost,
+                 violated_here=mine, violated_other_properties=others, terminal_behaviours_emitted=len(behs), emitted_one_in=int(emitk), replayed=len(recs), not_followed=lost,
                  exhaustive_replay=len(sample) == len(ok))
         if recs:
             T.validate(run, recs, f'{prop}_mcreplay_{name}', prop)
